@@ -5,7 +5,7 @@ LEVEL = 'proof'
 UNITS = [options.main_run_unit('C12'), b2.upload_url_unit('C12')] + local.units('C12')[1:3] + s3.method_units('C12')[6:9] + b2.units('C12')[1:3] + [retry.retry_finite('C12')] + retry.requires_auth_units('C12') + retry.giveup_units('C12') + ratelimit.forward_units('C12') + streams.units('C12')
 from specs import families as _families
 UNITS = _families.with_families('C12', UNITS)
-BOUNDED = [{'name': 'C12.faults', 'script': 'bounded/c12_faults.py', 'timeout': 900, 'bound': 'payloads of 0/1/2.5/4 stream chunks; fault kinds OSError(stream), ReadError, 500, 429+retry-after, 401(B2); 1..3 consecutive faults (masked) and persistent (bounded error); local, s3c, b2; sleeps patched out'}]
+BOUNDED = [{'name': 'C12.faults', 'script': 'bounded/c12_faults.py', 'timeout': 900, 'bound': 'payloads of 0/1/2.5/4 stream chunks; fault kinds OSError(stream), ReadError, 500, 429+retry-after, 401(B2); 1..3 consecutive faults (masked) and persistent (bounded error); local, s3c, b2; sleeps patched out; command level: a snapshot of ~130 chunks on the local backend with copyfileobj failing (persistently: ends with the error within 40 s; the first two attempts of every object: masked, restore exact)'}]
 TRUSTED = [
     'vf symbolic executor (/verif/vf): encoding of the Python subset (DESIGN 2.2)',
     'z3 5.1 (API + z3-new CLI), cvc5 1.0.3 (strings)',
